@@ -503,7 +503,7 @@ static Plan gen_plan(uint64_t runseed) {
         Op o = gen_query_op_for(rp, p.next_id++, focus[rp.below(nf)]);
         o.keep = 0;
         o.selfc = 1;
-        o.probe = (i >= k - 40 || rp.chance(1, 25)) ? 1 : 0;   // references for these are computed on demand
+        o.probe = (i >= k - 8 || rp.chance(1, 200)) ? 1 : 0;   // few fresh-process references (computed on demand); oracle 1b covers every op
         ops.push_back(o);
       }
     } else if (O.batch == "perm") {
